@@ -510,7 +510,7 @@ fn progress(draw: u64, chain: u64, diverging: bool, tuning: bool) -> Progress {
     p
 }
 
-fn template_progress() -> Progress {
+pub fn template_progress() -> Progress {
     thread_local! {
         static T: std::cell::RefCell<Option<Progress>> = const { std::cell::RefCell::new(None) };
     }
